@@ -42,12 +42,42 @@ func runC05(e *Engine, r *Report) {
 		if fnPkg(fn) != e.pkgTypes("internal/rsm") || !e.IsLive(fn) {
 			continue
 		}
-		sites := e.MethodSitesIn(fn, mgrUpdate)
-		if len(sites) == 0 || len(e.SitesIn(fn, upReq)) == 0 {
+		if len(e.SitesIn(fn, upReq)) == 0 {
 			continue
+		}
+		// fn decides (session lookup, duplicate test); the update itself may
+		// sit in fn or in a helper it calls
+		decide := fn
+		region := e.regionOf(decide, 2)
+		updFns := map[*ssa.Function]bool{}
+		var sites []ssa.CallInstruction
+		for _, g := range region {
+			for _, s := range e.MethodSitesIn(g, mgrUpdate) {
+				sites = append(sites, s)
+				updFns[g] = true
+			}
+		}
+		if len(sites) == 0 {
+			continue
+		}
+		reachesUpdate := func(x ssa.Instruction) bool {
+			c, ok := x.(ssa.CallInstruction)
+			if !ok {
+				return false
+			}
+			if e.IsMethodCall(c, mgrUpdate) {
+				return true
+			}
+			for _, g := range e.Callees(c) {
+				if updFns[g] {
+					return true
+				}
+			}
+			return false
 		}
 		for _, s := range sites {
 			n++
+			fn := s.Parent()
 			key := "state machine Update in " + fname(fn)
 			in := s.(ssa.Instruction)
 			// registered, unless no-op session
@@ -100,14 +130,14 @@ func runC05(e *Engine, r *Report) {
 					"the recorded response is the state machine's result keyed by the entry's series id", "the recorded response is not the update's result keyed by the entry's series id")
 			}
 			// the watermark is advanced before the dedup test
-			for _, us := range e.SitesIn(fn, upReq) {
+			for _, us := range e.SitesIn(decide, upReq) {
 				okd := false
-				for _, ws := range e.SitesIn(fn, upResp) {
+				for _, ws := range e.SitesIn(decide, upResp) {
 					if dominatesInstr(ws.(ssa.Instruction), us.(ssa.Instruction)) {
 						okd = true
 					}
 				}
-				r.check(okd, "MPT-session-record", "UpdateRespondedTo precedes UpdateRequired in "+fname(fn), e.ipos(us),
+				r.check(okd, "MPT-session-record", "UpdateRespondedTo precedes UpdateRequired in "+fname(decide), e.ipos(us),
 					"acknowledged results are discarded before the duplicate test", "the responded-to watermark is no longer advanced before the duplicate test")
 			}
 		}
@@ -124,12 +154,8 @@ func runC05(e *Engine, r *Report) {
 			if len(fsucc.Instrs) == 0 {
 				return
 			}
-			res := e.findPath(fn, fsucc.Instrs[0], func(x ssa.Instruction) bool {
-				c, ok := x.(ssa.CallInstruction)
-				return ok && e.IsMethodCall(c, mgrUpdate)
-			}, nil, nil)
-			first, isC := fsucc.Instrs[0].(ssa.CallInstruction)
-			if isC && e.IsMethodCall(first, mgrUpdate) {
+			res := e.findPath(fn, fsucc.Instrs[0], reachesUpdate, nil, nil)
+			if reachesUpdate(fsucc.Instrs[0]) {
 				res.Found = true
 			}
 			r.check(!res.Found, "GD-session", "unknown session never reaches the state machine in "+fname(fn), e.ipos(in),
@@ -336,13 +362,14 @@ func runC05(e *Engine, r *Report) {
 	// ---- serialisation order: lrusession.save iterates OrderedDo
 	if sv := r.need("(*internal/rsm.lrusession).save"); sv != nil {
 		okO := false
-		forEachCall(sv, func(s ssa.CallInstruction) {
-			if sc := s.Common().StaticCallee(); sc != nil && sc.Name() == "OrderedDo" {
-				okO = true
-			}
-		})
 		hasRange := false
-		forEachInstr(sv, func(in ssa.Instruction) {
+		// save and the helpers it is split into
+		e.forEachInstrRegion(sv, 2, func(in ssa.Instruction) {
+			if s, ok := in.(ssa.CallInstruction); ok {
+				if sc := s.Common().StaticCallee(); sc != nil && sc.Name() == "OrderedDo" {
+					okO = true
+				}
+			}
 			if rg, ok := in.(*ssa.Range); ok {
 				if _, isMap := rg.X.Type().Underlying().(*types.Map); isMap {
 					hasRange = true
